@@ -166,6 +166,8 @@ pub fn run(ctx: &Ctx, rep: &mut Report) {
         let leaves = 4 + r.usize(12);
         let bias = [0, 5, 20][r.usize(3)];
         let e = gen_tree(&mut r, leaves, &mut |r| if r.below(100) < bias { leaf(3 + r.below(3)) } else { leaf(r.below(3)) });
+        // a third of the random trees carry explicit grouping nodes (hand-built trees only)
+        let e = if i % 3 == 0 { with_groups(&e, &mut r, 3) } else { e };
         check(&e, &format!("random:{}", i), rep, false);
     });
     let n_text = ctx.pick(500, 20_000);
